@@ -59,6 +59,12 @@ class SolutionHistory(Stream):
                     case["inputs"][0].append(n)
                 case["release"] = [t] + [x for x in case["release"] if x not in (t, n)][:1]
         case["layout"] = rng.choice([[], [], ["--hashes"], ["--multiline"]])
+        if rng.random() < 0.4:
+            # a long description with change-log headings: "Version: ..." lines that are not the Version header
+            n = rng.choice(names)
+            v = rng.choice(sorted(case["universe"][n]))
+            others = [x for x in GL.VERS if x != v]
+            case["descriptions"] = [[[n, v], "Change log\n==========\n\nVersion: %s\n  - fixes\n\nVersion: %s\n  - first release\n" % (v, rng.choice(others))]]
         return case
 
     @staticmethod
@@ -107,10 +113,14 @@ class SolutionHistory(Stream):
         return fl
 
     def oracle(self, case, r):
-        if "second" not in r or r["second"]["code"] != 0:
-            return []
-        region = r["region"]
-        pins = r["second"]["pins"]
+        fails = []
+        if r["first"]["code"] == 0:
+            fails += self._judge(case, r["first"]["pins"], r["region"], "first")
+        if "second" in r and r["second"]["code"] == 0:
+            fails += self._judge(case, r["second"]["pins"], r["region"], "second")
+        return fails[:3]
+
+    def _judge(self, case, pins, region, which):
         U = {GL.norm(n): {str(GL.V(v)): reqs for v, reqs in vs.items()} for n, vs in case["universe"].items()}
         fails = []
 
@@ -130,11 +140,11 @@ class SolutionHistory(Stream):
         for k, v in pins.items():
             reqs = U.get(k, {}).get(str(GL.V(v)))
             if reqs is None:
-                fails.append(("C01/version-not-offered/" + region, {"pin": "%s==%s" % (k, v)}))
+                fails.append(("C01/version-not-offered/" + region, {"pin": "%s==%s" % (k, v), "run": which}))
                 continue
             for t in reqs:
                 check("%s %s" % (k, v), t)
-        return fails[:3]
+        return fails
 
     def shrink(self, case):
         from rv.props.c07 import CliVariants
